@@ -347,6 +347,10 @@ def check_undefined_symbol(ctx: Ctx, rule: str):
     if defaults:
         ctx.fail(rule, key, f"build_expression: an undefined symbol is not turned into MissingSymbolError: the name is looked up with a default ({_av.show(defaults[0])[:100]})", e2.where())
         return
+    lenient = [g for g in A.get_log if _av.find_all(cv, "sub") and any(x[1] == g[1] and x[2] == g[2] for x in _av.find_all(cv, "sub"))]
+    if lenient:
+        ctx.fail(rule, key, f"build_expression: an undefined symbol is not turned into MissingSymbolError: the name is looked up with {_av.show(lenient[0][1])}.get(...), which gives None for an undefined name instead of failing", e2.where())
+        return
     if cv[0] != "sub":
         ctx.undecided(rule, key, f"`variable` nodes are not resolved by a subscript lookup ({_av.show(cv)[:100]}); the error for undefined names is not judged", e2.where())
         return
